@@ -71,8 +71,8 @@ func genTxnOp(tp *simkit.Tape, client, idx int, nSlices int) Op {
 type txUse struct {
 	client int
 	txid   int
-	from   int64 // seq of first statement
-	to     int64 // seq of the operation that ended it (0 = still open at the end)
+	from   int64                      // seq of first statement
+	to     int64                      // seq of the operation that ended it (0 = still open at the end)
 	conns  map[string]map[uint32]bool // slice -> backend connection ids used
 	addrs  map[string]string          // slice -> backend address
 }
@@ -219,9 +219,9 @@ func checkC18(r *simkit.Run, h *History, keep bool, sessionTimeout time.Duration
 	sort.Slice(evs, func(i, j int) bool { return evs[i].at < evs[j].at })
 	txs := map[string]*txUse{}
 	key := func(c, t int) string { return fmt.Sprintf("%d/%d", c, t) }
-	owner := map[string]*txUse{}      // backend connection -> transaction that is open on it
-	ending := map[int]*OpRec{}        // client -> end operation in flight
-	gone := map[int]bool{}            // client disconnected
+	owner := map[string]*txUse{}        // backend connection -> transaction that is open on it
+	ending := map[int]*OpRec{}          // client -> end operation in flight
+	gone := map[int]bool{}              // client disconnected
 	pinned := map[int]map[string]bool{} // keep-session: connections a client is pinned to
 	lastActivity := map[int]time.Duration{}
 	active := map[int]*OpRec{}
